@@ -358,7 +358,9 @@ def explore(chk, rng, n, tag, bursts=0):
 
 def run(chk):
     rng = random.Random(chk.seed)
-    chk.lean = core.lean_build(["BromeliaVerif.Properties.C04"])
+    import gen_split
+    chk.tie_notes += gen_split.generate()[1]      # tie (a): split_data_stream translated to Gen/Split.lean on every run
+    chk.lean = core.lean_build(["BromeliaVerif.Properties.C04", "BromeliaVerif.Properties.C04Gen"])
     chk.rule = ("the real client node under the simulation scheduler; after the capabilities exchange the peer sends 1..12 messages "
                 "(application requests of 5 sizes up to ~350 bytes, application answers, DWR, DWA) whose concatenated encoding is cut "
                 "one byte at a time / at {1,2,3,5,19,20,21} / mixed up to 400 / in large pieces (several messages per read); segments "
